@@ -24,8 +24,14 @@ class SerializeTraits<::std::shared_ptr<T>>
       SerializeTraits<MutableType>::SERIALIZABLE;
   static constexpr bool SERIALIZED_SIZE_CACHED =
       SerializeTraits<MutableType>::SERIALIZED_SIZE_CACHED;
+  // a pointer can be null, so its size depends on the value even when the
+  // pointee's does not: TRIVIAL (size computable without looking at the
+  // value, relied upon by vector / T[N] / aggregates) must not be inherited
   static constexpr int SERIALIZED_SIZE_COMPLEXITY =
-      SerializeTraits<MutableType>::SERIALIZED_SIZE_COMPLEXITY;
+      SerializeTraits<MutableType>::SERIALIZED_SIZE_COMPLEXITY ==
+              SerializationHelper::SERIALIZED_SIZE_COMPLEXITY_TRIVIAL
+          ? SerializationHelper::SERIALIZED_SIZE_COMPLEXITY_SIMPLE
+          : SerializeTraits<MutableType>::SERIALIZED_SIZE_COMPLEXITY;
   static constexpr WireType WIRE_TYPE = SerializeTraits<MutableType>::WIRE_TYPE;
   static constexpr bool PRINT_AS_OBJECT =
       SerializeTraits<MutableType>::PRINT_AS_OBJECT;
